@@ -31,12 +31,9 @@ func sxTokens(s string) ([]string, error) {
 			out = append(out, string(c))
 			i++
 		case c == '"':
-			// Dump quotes with strconv.Quote: find the end honouring backslash escapes
+			// the lexer's rule: raw text up to the next double quote, no escapes
 			j := i + 1
 			for j < len(rs) && rs[j] != '"' {
-				if rs[j] == '\\' {
-					j++
-				}
 				j++
 			}
 			if j >= len(rs) {
@@ -108,11 +105,7 @@ func sxTree(n *sx, vars map[string]bool) (*Tree, error) {
 	if !n.list {
 		switch {
 		case n.str:
-			s, err := strconv.Unquote(n.atom)
-			if err != nil {
-				s = n.atom[1 : len(n.atom)-1]
-			}
-			return cst(s), nil
+			return cst(n.atom[1 : len(n.atom)-1]), nil
 		case n.atom == "true":
 			return cst(true), nil
 		case n.atom == "false":
@@ -136,11 +129,7 @@ func sxTree(n *sx, vars map[string]bool) (*Tree, error) {
 				if k.list || !k.str {
 					return nil, fmt.Errorf("mixed list literal in dump")
 				}
-				s, err := strconv.Unquote(k.atom)
-				if err != nil {
-					s = k.atom[1 : len(k.atom)-1]
-				}
-				r = append(r, s)
+				r = append(r, k.atom[1:len(k.atom)-1])
 			}
 			return cst(r), nil
 		}
